@@ -229,9 +229,14 @@ def run_item(item):
 def run_huge(seed):
     """Enormous lines and hunks: must terminate, with memory in proportion."""
     rng = engine.item_rng(seed)
-    opts, cls = gen.hostile_options(rng)
-    for k in ('--max-line-length', '--wrap-max-lines'):
-        opts.pop(k, None)
+    for _attempt in range(6):
+        # an option set that delta accepts (most rejections are found with an empty input)
+        opts, cls = gen.hostile_options(rng)
+        for k in ('--max-line-length', '--wrap-max-lines'):
+            opts.pop(k, None)
+        probe = runner.run_delta(gen.to_args(opts), b'')
+        if probe.rc == 0:
+            break
     shape = rng.choice(['line-1MB', 'line-1MB-wide', 'hunk-100k', 'hunk-100k-plus-only', 'many-files', 'blame-50k', 'grep-50k', 'text-200k'])
     unit = rng.choice(['x', 'ab ', '\t', '日本', 'e\u0301', '\x1b[31mq\x1b[m', '😀'])
     head = 'diff --git a/f.rs b/f.rs\n--- a/f.rs\n+++ b/f.rs\n'
@@ -317,7 +322,8 @@ def check_one(args, data, mode, size, kind, cls, mutated, variant='hooks', paren
         if res.trace and (seen != nl or not ended):
             return violated('input-not-fully-ingested', 'the state machine handled %d of %d input lines (end record: %s) although delta exited 0' % (seen, nl, ended),
                             nl, seen, run=res, counters=counters, sets=sets)
-    if getattr(res, 'hwm_kb', None) and res.hwm_kb * 1024 > (64 << 20) + 48 * len(data):
+    # (constant part: the alignment table of two lines at the maximum line length alone takes up to 2^24 cells of 24 bytes)
+    if getattr(res, 'hwm_kb', None) and res.hwm_kb * 1024 > (512 << 20) + 48 * len(data):
         return violated('runaway-allocation', 'resident-set high-water mark %d KB for %d input bytes' % (res.hwm_kb, len(data)),
                         run=res, counters=counters, sets=sets)
     if res.maxrss_kb and res.maxrss_kb * 1024 > (512 << 20) + 64 * len(data):
